@@ -1,0 +1,22 @@
+//go:build verif
+
+package iobroker
+
+/*
+ * verif_on.go
+ * Verification hook, compiled in with -tags verif only
+ */
+
+import "context"
+
+// VerifHook, if non-nil, is called at named points of Broker.connect.  It
+// exists only in builds with the verif tag and is used by an external
+// verification harness to observe and serialise connect's critical sections.
+var VerifHook func(ctx context.Context, point, dir, key string)
+
+// verifPoint calls VerifHook, if set.
+func verifPoint(ctx context.Context, point string, dir sDirection, key string) {
+	if h := VerifHook; nil != h {
+		h(ctx, point, string(dir), key)
+	}
+}
